@@ -28,6 +28,8 @@ mod typing_context_tests;
 
 pub use global_signature::build_module_signature;
 pub use main_checker::type_check_module;
+#[cfg(samlang_verif)]
+pub use main_checker::verif_hooks as verif_hooks_c13;
 pub use ssa_analysis::{SsaAnalysisResult, perform_ssa_analysis_on_module};
 
 pub fn type_check_sources(
